@@ -356,7 +356,20 @@ func (ip *interp) bindings(f *frame, c *Call, ins []Param) map[string]*Exp {
 	return out
 }
 
+// evalCall evaluates one call statement.  Whatever a call with a disabled
+// modifier returns - also an input its callee merely hands through - is the
+// value or null depending on the condition, and so derives from it.
 func (ip *interp) evalCall(f *frame, c *Call) *callRes {
+	cr := ip.evalCall0(f, c)
+	if c.Disabled != nil && cr != nil && cr.outs != nil {
+		deps := map[string]bool{}
+		ip.eval(f, c.Disabled).AllDeps(deps)
+		cr.outs.Taint(deps)
+	}
+	return cr
+}
+
+func (ip *interp) evalCall0(f *frame, c *Call) *callRes {
 	ins, outsP := ip.params(c.Callee)
 	cr := &callRes{call: c, outParams: outsP}
 	path := c.Id()
